@@ -92,6 +92,13 @@ def search(ctx):
                 v["hook_event_name"] = ev
             if r.chance(0.15):
                 v["permission_mode"] = "bypassPermissions"
+            if r.chance(0.6):
+                # what the hosts send along after a tool ran (docs/hook-systems): the feedback depends on none of it
+                v["tool_response"] = r.pick([{"stdout": "ok", "stderr": "", "interrupted": False, "isImage": False}, {"stdout": "", "stderr": "boom", "interrupted": True}, {"interrupted": True}, {},
+                                             [{"type": "text", "text": "done"}], [], "plain text result", "", None, 5, True, {"interrupted": "yes"}, {"content": [{"type": "text", "text": "x"}], "isError": True}])
+                stats["with_tool_response"] += 1
+            if r.chance(0.3):
+                v.update({"session_id": "abc123", "transcript_path": s.home + "/t.jsonl", "tool_use_id": "toolu_01"})
             for cfgname, text in texts.items():
                 p = s.write("cfg_%s.conf" % cfgname, text)
                 jobs.append({"stdin": json.dumps(v).encode(), "home": s.home, "env_extra": {"DIPPY_CONFIG": p}, "cwd": s.proj})
